@@ -73,7 +73,7 @@ impl Property for C13 {
          oracle = brute force over EVERY lattice point of the box and EVERY integer slack value in the new variable's bounds, in exact rational arithmetic; non-trivial = converted, >=2 variables, both feasible and infeasible lattice points; distinct = sha256(instance, call)"
     }
     fn required_labels(&self) -> Vec<String> {
-        ["outcome=converted", "outcome=relaxed", "outcome=infeasible", "outcome=range-exceeded", "reject=unknown-id", "reject=equality", "reject=continuous", "reject=undefined-variable", "reject=infinite-range", "rational-coeff", "quadratic", "op=convert", "op=add-slack", "other-constraints", "negative-box", "binary-variable", "unsorted-variable-list", "limit=needed", "limit=needed-1", "second-conversion", "history=add-encode-substitute-convert", "integer-linear-max-exactly-zero", "binary-fixed-by-bound", "one-hot-hint-of-relaxed-constraint", "reject=continuous-with-zero-coefficient"].iter().map(|s| s.to_string()).collect()
+        ["outcome=converted", "outcome=relaxed", "outcome=infeasible", "outcome=range-exceeded", "reject=unknown-id", "reject=equality", "reject=continuous", "reject=undefined-variable", "reject=infinite-range", "rational-coeff", "quadratic", "op=convert", "op=add-slack", "other-constraints", "negative-box", "binary-variable", "unsorted-variable-list", "limit=needed", "limit=needed-1", "second-conversion", "history=add-encode-substitute-convert", "integer-linear-max-exactly-zero", "binary-fixed-by-bound", "one-hot-hint-of-relaxed-constraint", "reject=continuous-with-zero-coefficient", "sweep=one-sided-bound", "one-sided-bound/always-holds", "one-sided-bound/no-finite-slack-range"].iter().map(|s| s.to_string()).collect()
     }
     fn cases(&self, tier: Tier) -> usize {
         match tier {
@@ -90,6 +90,91 @@ impl Property for C13 {
             "'holds' uses the SDK's feasibility tolerance 1e-6; intended values are separated from 0 by at least 1/lcm(q) >= 1e-3".into(),
             "for non-linear f the interval analysis is not tight, so only the direction 'reported outcome is justified' is asserted; for linear f also the converse".into(),
         ]
+    }
+
+    fn sweep_len(&self, _tier: Tier) -> usize {
+        2 * 3 * 4 * 2 * 3 * 2
+    }
+    fn sweep_description(&self) -> Option<String> {
+        Some("a variable bounded on one side only: s*a*x0 + x1 + c <= 0 with x0 in (-inf, u] (s = +1) or [-u, +inf) (s = -1), a in {1,2,3}, u in {-3,-1,0,2}, x1 in [0,h], h in {1,2}, c in {-2,0,1}, both calls: max f = a*u + h + c <= 0 => moved to the removed constraints unchanged; max f > 0 => the conversion has no finite slack range and must fail without touching the instance (never as 'infeasible')".into())
+    }
+    fn sweep_case(&self, _tier: Tier, i: usize, ctx: &mut Ctx) -> PResult {
+        let mut k = i;
+        let mut take = |n: usize| {
+            let r = k % n;
+            k /= n;
+            r
+        };
+        let lower_side = take(2) == 1;
+        let a = [1.0, 2.0, 3.0][take(3)];
+        let u = [-3.0, -1.0, 0.0, 2.0][take(4)];
+        let h = [1.0, 2.0][take(2)];
+        let c = [-2.0, 0.0, 1.0][take(3)];
+        let op_add = take(2) == 1;
+        ctx.label("sweep=one-sided-bound");
+        ctx.fp_dbg(&("one-sided", i));
+        let (coef, bnd) = if lower_side { (-a, crate::mk::bound(-u, f64::INFINITY)) } else { (a, crate::mk::bound(f64::NEG_INFINITY, u)) };
+        let mut inst = v1::Instance::default();
+        inst.sense = SENSE_MIN;
+        for (id, b) in [(3u64, bnd), (5u64, crate::mk::bound(0.0, h))] {
+            let mut v = v1::DecisionVariable::default();
+            v.id = id;
+            v.kind = KIND_INTEGER;
+            v.bound = Some(b);
+            inst.decision_variables.push(v);
+        }
+        inst.objective = Some(crate::mk::fconst(0.0));
+        let mut con = v1::Constraint::default();
+        con.id = 8;
+        con.equality = LE_ZERO;
+        con.function = Some(crate::mk::flin(crate::mk::linear(vec![(3, coef), (5, 1.0)], c)));
+        inst.constraints.push(con.clone());
+        let before = inst.clone();
+        let max_f = a * u + h + c;
+        let what = || format!("{}(8, 1000) on {coef}*x3 + x5 + {c} <= 0, x3 in {:?}, x5 in [0,{h}]", if op_add { "add_integer_slack_to_inequality" } else { "convert_inequality_to_equality_with_integer_slack" }, before.decision_variables[0].bound);
+        ctx.sample_with(|| json!({"sweep": "one-sided bound", "call": what(), "max_f": max_f}));
+        let res: anyhow::Result<Option<Option<f64>>> = if op_add { inst.add_integer_slack_to_inequality(8, 1000).map(Some) } else { inst.convert_inequality_to_equality_with_integer_slack(8, 1000).map(|_| None) };
+        if max_f <= 0.0 {
+            ctx.nontrivial();
+            ctx.label("one-sided-bound/always-holds");
+            match res {
+                Err(e) => fail("C13/one-sided/always-satisfied-rejected", format!("every point of the box satisfies the inequality (max f = {max_f}) but the call failed: {e:#}: {}", what())),
+                Ok(b) => {
+                    let moved = inst.removed_constraints.iter().find(|rc| rc.constraint.as_ref().map(|c| c.id) == Some(8));
+                    if inst.constraints.iter().any(|c| c.id == 8) || moved.and_then(|rc| rc.constraint.as_ref()) != Some(&con) {
+                        return fail("C13/one-sided/always-satisfied-not-relaxed", format!("every point of the box satisfies the inequality (max f = {max_f}) but it was not moved unchanged to the removed constraints: {}", what()));
+                    }
+                    if inst.decision_variables != before.decision_variables || inst.objective != before.objective || inst.constraints.len() != 0 {
+                        return fail("C13/one-sided/relaxed-other-changes", format!("relaxing changed other parts of the instance: {}", what()));
+                    }
+                    if matches!(b, Some(Some(_))) {
+                        return fail("C13/one-sided/relaxed-but-b-reported", format!("constraint relaxed but a slack coefficient was reported: {}", what()));
+                    }
+                    Ok(())
+                }
+            }
+        } else if !op_add {
+            ctx.label("one-sided-bound/no-finite-slack-range");
+            match res {
+                Ok(_) => fail("C13/one-sided/infinite-range-accepted", format!("f has no lower bound over the box, no finite integer slack range exists, but the conversion succeeded: {}", what())),
+                Err(e) => {
+                    if e.downcast_ref::<ommx::InfeasibleDetected>().is_some() {
+                        return fail("C13/one-sided/infeasible-reported-but-feasible-point", format!("infeasibility reported although the inequality has solutions: {}", what()));
+                    }
+                    if inst != before {
+                        return fail("C13/one-sided/error-modified-instance", format!("call failed ({e:#}) but modified the instance: {}", what()));
+                    }
+                    Ok(())
+                }
+            }
+        } else {
+            // add_integer_slack with an unbounded range: outside the statement (bounded variables); only "an error leaves the instance alone"
+            ctx.label("one-sided-bound/add-with-unbounded-range (not asserted)");
+            if res.is_err() && inst != before {
+                return fail("C13/one-sided/error-modified-instance", format!("call failed but modified the instance: {}", what()));
+            }
+            Ok(())
+        }
     }
 
     fn run(&self, t: &mut Tape, ctx: &mut Ctx) -> PResult {
